@@ -61,7 +61,8 @@ PROBES_WANTED = ['sample_in_last_interval', 'three_in_one_interval', 'stamp_at_s
                  'cluster_in_last_interval', 'step_lands_below_next_row',
                  'buffer_growth_inside_filter', 'empty_table', 'all_samples_lost',
                  'measurements_none', 'measurements_empty', 'models_omitted',
-                 'default_time_step', 'gps_week_scale_clock', 'negative_clock']
+                 'default_time_step', 'gps_week_scale_clock', 'negative_clock', 'clock_crosses_zero',
+                 'a_plus_gap_rounds_off_next_stamp', 'stamp_one_ulp_from_epoch']
 
 
 def describe():
